@@ -121,3 +121,7 @@ let sum_of (x : t) : (n list, n list) sum =
   | _ -> raise (Parse_error "sum expected")
 let sx_sum (s : (n list, n list) sum) : t =
   match s with Inl b -> L [A "ok"; sx_bytes b] | Inr b -> L [A "err"; sx_bytes b]
+
+(* ---- Z ---- *)
+let z_of_int (i : int) : z = if i = 0 then Z0 else if i > 0 then Zpos (pos_of_int i) else Zneg (pos_of_int (- i))
+let int_of_z (x : z) : int = match x with Z0 -> 0 | Zpos p -> int_of_pos p | Zneg p -> - (int_of_pos p)
